@@ -80,6 +80,8 @@ def check_case(case, res: Result):
     from opv.rigs import cmd_rig as CR
 
     CR.install_schedule_hook()
+    CR.install_request_hooks()
+    CR.reset_request_hooks()
     CR.REQS.clear()
     kind = case["kind"]
     at = case.get("at")
@@ -157,11 +159,19 @@ def check_case(case, res: Result):
         name_of = {iid: evs[0][2] for iid, evs in per.items()}
         bursts = CR.burst_tainted(list(CR.REQS), alive_at, name_of, _conflicts, UOD_NAMES)
         tainted = set().union(*bursts.values()) if bursts else set()
-        race = CR.stop_race_tainted(list(CR.REQS), alive_at, name_of, _conflicts, UOD_NAMES)
+        race = CR.stop_race_tainted(list(CR.REQS), alive_at, name_of, _conflicts, UOD_NAMES,
+                                    {i: [e[0] for e in evs if e[1] == "init"] for i, evs in per.items()})
         ent = next((x for x in sl.stops if x["run_id"] == run1), None)
         misbooked = CR.misbooked_conclusions(ent["records"]) if ent is not None else set()
 
+        cancel_aborted = {f[1] for f in CR.CANCEL_MARK_FAILS if f[1] is not None}
+
         def mech_for(iids, default):
+            if iids and all(i in cancel_aborted for i in iids):
+                # the Stop's cancel of this instance aborted inside Tracking.mark_cancelled (node.cancel() refused because
+                # the line's cancel flag was already set by the cancel of its previous instance): finalize is delayed to
+                # the next tick and no cancelled state is ever recorded
+                return "C10.cancel_aborted_before_finalize_node_refused_cancel"
             if iids and all(i in race for i in iids):
                 return "C10.command_requested_in_tick_of_stop_survives_stop"
             if iids and all(i in race or i in tainted for i in iids):
@@ -182,7 +192,7 @@ def check_case(case, res: Result):
         if ent is None:
             viol.append(("C10.no_on_stop_event", f"{kind} completed at tick {s} but no on_stop event carried run id {run1}"))
         elif ent["msg"] is None:
-            suffix, desc = CR.classify_records(ent["records"])
+            suffix, desc = CR.classify_records(ent["records"], (), tainted | race, CR.shared_instance_ids())
             viol.append(("C10.final_runlog_unproducible_" + suffix if suffix else "C10.run_stopped_message_cannot_be_built",
                          f"create_run_stopped_msg raised inside on_stop (tick {ent['tick']}): {ent['exc']}; {desc}"))
         else:
